@@ -174,7 +174,7 @@ def gen_c12(r, quick):
     cases += gen_second_connection(r, 40 if quick else 300)
     w = {'S': 6, 'F': 4, 'P': 1.5, 'Q': 5, 'T': 9, 'E': 0.3, 'D': 0.2, 'H': 0, 'A': 0.05, 'X': 0.1, 'W': 0.3, 'V': 0.6,
          'Z': 0.2, 'R': 0.2, 'G': 0.2, 'L': 0.2}
-    for _ in range(400 if quick else 6000):
+    for _ in range(1500 if quick else 10000):
         cfg = cl.default_cfg(r, handles=1, mt=r.choice([0, 1, 2, 3]))
         cases.append((cfg, cl.gen_random(r, cfg, r.choice([6, 9, 12]), w, prefix=cl.connected_prefix())))
     return cases
